@@ -135,3 +135,12 @@ claim("C13", "other", "who-may-write rule on Diff.Edits; provenance/aliasing rul
       "patch; context found by positional comparison across a neighbouring chunk (a data-dependent fault known from earlier dynamic work) has no structural signature.",
       BASE_NOTE,
       "DESIGN.md section 3, C13")
+claim("C14", "other", "inconsistent-belief rule on the span parser's sentinel; writer/reader constant tables compared by value (typed AST); exhaustive EditOp switches; aliasing rule on handed-out chunk slices",
+      "Decides structural clauses of the round trip: every caller of the span parser tests its omitted-count sentinel before using the count (today readUnifiedChunk does not: "
+      "known finding, see known_findings.json); the constants the Unified and Normal writers emit and the constants the readers classify by agree by value (line prefixes per "
+      "opcode and payload offsets, '@@' tokens and span tags, file-header prefixes, name/time separator, change-command letters and their opcodes, '< ' '> ' '---'); both header "
+      "timestamps are parsed with the writers' default format constant; every formatter and the reader handle all opcodes; overlapping context is trimmed from the correct end; "
+      "the git-patch reader does not reuse the backing array of chunks it already returned. Does NOT decide byte-for-byte re-formatting or that a rendering applied by the "
+      "published rules turns Left into Right; the spelling of empty ranges (a conformance fault known from earlier dynamic work) has no structural signature and is not decided.",
+      BASE_NOTE,
+      "DESIGN.md section 3, C14")
